@@ -657,6 +657,24 @@ func c17(run *ev.Run, tier string) {
 			docs = append(docs, c17Doc{"probe|deb.signature.type|" + v, s.YAML(), []string{"deb"}})
 		}
 	}
+	// level spellings the rpm packager reads (names in any case, an explicit sign, an
+	// empty level after the colon)
+	for _, v := range []string{"zstd:BEST", "zstd:Fastest", "gzip:+9", "gzip:", "zstd:", "xz:", "lzma:"} {
+		s := base()
+		s.RPM.Compression = v
+		docs = append(docs, c17Doc{"probe|rpm.compression|" + v, s.YAML(), []string{"rpm"}})
+	}
+	// combinations that are valid although one half looks superfluous: a ghost entry
+	// that names a source (rpm takes its mode from there), an ipk alternative with a
+	// negative priority
+	{
+		s := base()
+		s.Contents = append(s.Contents, &gen.Content{Type: "ghost", Dst: "/var/log/schemapkg.log", Src: payload})
+		docs = append(docs, c17Doc{"enum|ghost-entry-with-src", s.YAML(), formats})
+		s = base()
+		s.IPK.Alternatives = []gen.IPKAlt{{Priority: -10, Target: "/opt/schemapkg/p.txt", LinkName: "/usr/bin/schemapkg"}, {Priority: 0, Target: "/opt/schemapkg/p.txt", LinkName: "/usr/bin/schemapkg0"}}
+		docs = append(docs, c17Doc{"enum|ipk-alternative-with-negative-priority", s.YAML(), []string{"ipk"}})
+	}
 	for _, d := range docs {
 		if strings.HasPrefix(d.label, "probe|") {
 			probes[d.label] = true
